@@ -113,6 +113,7 @@ Proof.
     try (apply rs_del); try (unfold r_plain; apply rs_same); try (apply rs_same).
   - exact (rs_del m (Cl i)).
   - apply rs_add. apply andb_true_iff in E. destruct E as [_ E]. apply negb_true_iff in E. apply emem_false; exact E.
+  - exact (rs_del m (Cl i)).
 Qed.
 
 Lemma RI_step m x m' : RI m -> rmon_step m x = Some m' -> RI m'.
@@ -164,6 +165,7 @@ Qed.
 Definition gone (e : ent) (x : ev) : bool :=
   match x with
   | EvRemoved e' => ent_eqb e' e
+  | EvDeferred e' => ent_eqb e' e            (* remove() of the client that is being announced *)
   | EvIntroRet i false => ent_eqb (Cl i) e
   | _ => false
   end.
@@ -172,11 +174,16 @@ Lemma gone_dead e m x m' : RI m -> gone e x = true -> rmon_step m x = Some m' ->
 Proof.
   intros H G S. destruct x; cbn [gone] in G; try discriminate.
   - destruct acc; [discriminate|]. apply ent_eqb_eq in G; subst e. cbn [rmon_step] in S.
-    destruct (r_alive m (Cl i)) eqn:A; [|discriminate]. injection S as <-.
-    split; [exact (r_alive_del_self (Cl i) m H) | apply (ri_seen _ H); exact A].
+    destruct (r_alive m (Cl i)) eqn:A.
+    + injection S as <-. split; [exact (r_alive_del_self (Cl i) m H) | apply (ri_seen _ H); exact A].
+    + destruct (emem (Cl i) (r_seen m)) eqn:Se; [|discriminate]. injection S as <-.
+      split; [exact A | apply emem_In; exact Se].
   - apply ent_eqb_eq in G; subst e0. cbn [rmon_step] in S.
     destruct (r_alive m e) eqn:A; [|discriminate]. destruct (negb _); [|discriminate]. injection S as <-.
     split; [exact (r_alive_del_self e m H) | destruct e; apply (ri_seen _ H); exact A].
+  - apply ent_eqb_eq in G; subst e0. cbn [rmon_step] in S. destruct e as [i|i|i|i]; try discriminate.
+    destruct (r_alive m (Cl i)) eqn:A; [|discriminate]. injection S as <-.
+    split; [exact (r_alive_del_self (Cl i) m H) | apply (ri_seen _ H); exact A].
 Qed.
 
 Theorem accepted_no_callback_after_remove later x earlier e :
@@ -233,7 +240,10 @@ Proof.
     split; [|split; [exact I'|intros t; rewrite tirr_tinfo by exact Ir; apply T]].
     rewrite <- K. pose proof (rmon_step_shape _ _ _ Sr) as Sh.
     destruct x; cbn in Ir; try discriminate; cbn [rmon_step] in Sr; ifs Sr; injection Sr as <-; try reflexivity;
-      try (destruct e; try discriminate; reflexivity).
+      repeat match goal with
+             | |- context [r_add ?e _] => is_var e; destruct e; try discriminate
+             | |- context [r_del ?e _] => is_var e; destruct e; try discriminate
+             end; reflexivity.
   - destruct x; cbn in Ir; try discriminate.
     + (* EvNow *) cbn in St, Sr. injection St as <-. injection Sr as <-. split; [exact K | split; [exact I' | exact T]].
     + (* EvAct *) cbn [tmon_step] in St. destruct (alookup Z.eqb t (tm_tab mt)) as [[[c iv] n]|] eqn:L; [|discriminate].
@@ -244,6 +254,8 @@ Proof.
       * intros t'. cbn [tinfo tm_tab]. destruct (t =? t') eqn:E.
         -- apply Z.eqb_eq in E; subst t'. rewrite alookup_aset_eq by apply zeq. rewrite <- T, L. reflexivity.
         -- apply Z.eqb_neq in E. rewrite alookup_aset_neq by (try apply zeq; congruence). apply T.
+    + (* EvWait *) cbn [tmon_step] in St. destruct (forallb _ _); [|discriminate]. injection St as <-.
+      cbn in Sr. injection Sr as <-. split; [exact K | split; [exact I' | exact T]].
     + (* EvCreated *) destruct e; try discriminate. cbn [tmon_step] in St. injection St as <-.
       cbn [rmon_step] in Sr. destruct (_ && _) eqn:F; [|discriminate]. injection Sr as <-.
       apply andb_true_iff in F. destruct F as [_ F]. apply negb_true_iff, emem_false in F.
@@ -292,11 +304,40 @@ Proof.
   rewrite forallb_forall in C4. specialize (C4 _ L'). apply Z.leb_le in C4. exact C4.
 Qed.
 
+(* the clock value the loop sampled last *)
+Fixpoint now_of (tr : list ev) : Z :=
+  match tr with [] => 0 | EvNow n :: _ => n | _ :: r => now_of r end.
+
+Lemma tmon_now_of tr mt : tmon_run tr = Some mt -> tm_now mt = now_of tr.
+Proof.
+  unfold tmon_run. revert mt. induction tr as [|x tr IH]; cbn [mon_run]; intros mt E.
+  - injection E as <-. reflexivity.
+  - destruct (mon_run tmon_step tmon0 tr) as [m0|]; [|discriminate]. specialize (IH m0 eq_refl).
+    destruct x; cbn [tmon_step now_of] in *; ifs E; injection E as <-; cbn [tm_now]; try exact IH; reflexivity.
+Qed.
+
+(* the loop never sleeps past a due time: when it waits with time-out t after having sampled the clock at now, no live
+   timer (created at c, interval iv, activated n times so far) is due before now + t *)
+Theorem accepted_wait_not_past_due later t earlier :
+  tmon_run (later ++ EvWait t :: earlier) <> None -> rmon_run (later ++ EvWait t :: earlier) <> None ->
+  forall t' c iv n, tinfo t' earlier = Some (c, iv, n) -> now_of earlier + t <= c + (n + 1) * iv.
+Proof.
+  unfold tmon_run, rmon_run. rewrite !mon_run_app. cbn [mon_run]. intros At Ar.
+  destruct (mon_run tmon_step tmon0 earlier) as [mt|] eqn:Et; [|congruence].
+  destruct (mon_run rmon_step rmon0 earlier) as [mr|] eqn:Er; [|congruence].
+  pose proof (TR_run earlier mt mr Et Er) as (K & I & T). pose proof (tmon_now_of earlier mt Et) as N.
+  destruct (tmon_step mt (EvWait t)) as [mt'|] eqn:St; [|congruence].
+  cbn [tmon_step] in St. destruct (forallb _ _) eqn:C; [|discriminate].
+  intros t' c iv n L'. rewrite <- T in L'. apply (alookup_In Z.eqb zeq) in L'.
+  rewrite forallb_forall in C. specialize (C _ L'). apply Z.leb_le in C. cbn [snd tm_due] in C. rewrite <- N. exact C.
+Qed.
+
 (* ========== failed reads and writes ============================================================================================= *)
 Definition settles (i : Z) (x : ev) : bool :=
   match x with
   | EvCb (Cl j) KClosed _ => j =? i
   | EvRemoved (Cl j) => j =? i
+  | EvDeferred (Cl j) => j =? i
   | EvIntroRet j false => j =? i
   | _ => false
   end.
@@ -327,6 +368,8 @@ Proof.
     + injection S as <-. destruct (failed_io r); [right|]; exact Hin.
     + destruct (is_nil (c_owed m)); [|discriminate]. injection S as <-; exact Hin.
     + destruct (is_nil (c_owed m)); [|discriminate]. injection S as <-; exact Hin.
+    + destruct e; try (injection S as <-; exact Hin). injection S as <-. cbn [c_owed]. apply In_zremove_all. split; [|exact Hin].
+      cbn in Hs. apply Z.eqb_neq in Hs. congruence.
     + destruct e; try (injection S as <-; exact Hin). injection S as <-. cbn [c_owed]. apply In_zremove_all. split; [|exact Hin].
       cbn in Hs. apply Z.eqb_neq in Hs. congruence.
     + destruct (is_nil (c_owed m)); [|discriminate]. injection S as <-; exact Hin.
@@ -556,6 +599,13 @@ Proof.
   intros E. apply (accepted_activation later t due now earlier); rewrite <- E; [apply tmon_accepts_model | apply rmon_accepts_model].
 Qed.
 
+Theorem model_wait_not_past_due fuel ops later t earlier :
+  trace (steps fuel init ops) = later ++ EvWait t :: earlier ->
+  forall t' c iv n, tinfo t' earlier = Some (c, iv, n) -> now_of earlier + t <= c + (n + 1) * iv.
+Proof.
+  intros E. apply (accepted_wait_not_past_due later t earlier); rewrite <- E; [apply tmon_accepts_model | apply rmon_accepts_model].
+Qed.
+
 Theorem model_dispatch_registered fuel ops later x earlier e p :
   trace (steps fuel init ops) = later ++ x :: earlier -> needs_reg x = Some (e, p) ->
   exists mask, reg_of e earlier = Some mask /\ p mask = true.
@@ -621,7 +671,7 @@ Theorem run_returns_or_stuck fuel items s :
   stuck (run_loop fuel items s) = true \/ exists tr', trace (run_loop fuel items s) = EvRunRet :: tr'.
 Proof.
   revert items s. induction fuel as [|f IH]; intros items s; cbn [run_loop]; [left; reflexivity|].
-  cbn zeta. set (s1 := closing_phase f (timer_phase f (clk s) (log (EvNow (clk s)) s))).
+  cbn zeta. set (s1 := closing_phase f (timer_phase f (clk s) (log (EvSel (sel_view (selected s))) (log (EvNow (clk s)) s)))).
   destruct (stuck s1) eqn:Est; [left; exact Est|].
   destruct (poll _ items s1) as [[s2 evt] items2].
   destruct evt as [[e fl]|]; [destruct (fl_is_none fl)|]; try apply IH; destruct (intr s2); try apply IH; right; eexists; reflexivity.
